@@ -45,7 +45,8 @@
 // Opts.ZeroWeights writes some weights as the explicit lower bound 0;
 // Opts.YAMLOrder draws the key order of the YAML mappings (so that the document
 // may end with any node, e.g. inside a block-scalar body); Opts.FileTails draws
-// how the two files end. All three are off unless asked for.
+// how the two files end; Opts.YAMLAnchors draws a plan by which user maps of the YAML rendering are written
+// through anchors and merge keys (yamlanchor.go). All four are off unless asked for.
 //
 // # Renderers
 //
@@ -317,6 +318,10 @@ type Layout struct {
 	// (the twin of an HCL file without a `scenario` block); without it such a description is written
 	// `scenarios: []`. It has no effect on a description with scenarios.
 	YAMLNoScenariosKey bool `json:"yaml_no_scenarios_key,omitempty"`
+	// YAMLAnchors is the plan by which RenderYAMLStyled writes user maps (headers, metadata, mapping, variables)
+	// through anchors, aliases and merge keys, optionally with a `locals:` helper block (see yamlanchor.go);
+	// nil = no anchors. RenderYAML ignores it.
+	YAMLAnchors *YAMLAnchors `json:"yaml_anchors,omitempty"`
 }
 
 // Model is one scenario description.
